@@ -131,6 +131,9 @@ func runHistory(t *testing.T, h history, mode string) (fs []finding, rs runStats
 				// O1: what a new connection of the same node gets from the same live server
 				fresh := srv.fetch(c.spec, false)
 				if d := diffSnap(c.snapshot(), fresh.snapshot()); d != "" {
+					if os.Getenv("VERIF_DUMP_FRESH") != "" {
+						fmt.Printf("DUMP-FRESH %s after %s alive=%v warming=%v\n--- held\n%s\n--- fresh\n%s\n", h.String(), label, fresh.alive(), fresh.warming(), strings.Join(c.log, "\n"), strings.Join(fresh.log, "\n"))
+					}
 					for _, cl := range diffClasses(c.snapshot(), fresh.snapshot()) {
 						fs = append(fs, finding{"held-vs-new-connection:" + cl,
 							fmt.Sprintf("after %s the connected %s holds something else than a new connection receives (first=held, second=new connection): %s", label, c.spec.Name, d)})
@@ -284,10 +287,22 @@ func explore(t *testing.T, property, part, mode string) {
 	}
 	states := map[string]bool{}
 	var ord int64
+	// debugging aid: VERIF_ORDS=lo-hi restricts a run to a window of history ordinals
+	var ordLo, ordHi int64
+	fmt.Sscanf(os.Getenv("VERIF_ORDS"), "%d-%d", &ordLo, &ordHi)
 	for _, p := range plans {
 		enumerate(p.d, p.core, func(h history) bool {
 			ord++
 			if !env.Mine(ord) {
+				return true
+			}
+			if ordLo > 0 && (ord < ordLo || ord > ordHi) {
+				return true
+			}
+			if os.Getenv("VERIF_ORD_FIND") != "" {
+				if h.String() == os.Getenv("VERIF_ORD_FIND") {
+					fmt.Printf("ORD %d %s\n", ord, h.String())
+				}
 				return true
 			}
 			if env.Expired() {
@@ -310,7 +325,7 @@ func explore(t *testing.T, property, part, mode string) {
 			res.Count("skipped_proxy_type_pushes", int64(rs.skippedPushes))
 			res.Outcome(fmt.Sprintf("findings=%d skipped=%d", len(fs), rs.skippedPushes))
 			for _, f := range fs {
-				res.Violate(f.key, f.desc+" [history "+h.String()+"]", h)
+				res.Violate(f.key, fmt.Sprintf("%s [history %s; ordinal %d]", f.desc, h.String(), ord), h)
 			}
 			if ord%401 == 0 {
 				res.Sample(h.String())
